@@ -2,8 +2,8 @@ package main
 
 import (
 	"fmt"
-	"go/ast"
 	"go/types"
+	"sort"
 	"strings"
 
 	"golang.org/x/tools/go/ssa"
@@ -27,36 +27,11 @@ func runC29(c *Ctx) {
 	rel := "ledger/common"
 	// (1) decoder table
 	wantIDs := map[int64]string{0: "NativeScriptPubkey", 1: "NativeScriptAll", 2: "NativeScriptAny", 3: "NativeScriptNofK", 4: "NativeScriptInvalidBefore", 5: "NativeScriptInvalidHereafter"}
-	p, fd := c.FuncDecl(rel, "NativeScript.UnmarshalCBOR")
+	_, fd := c.FuncDecl(rel, "NativeScript.UnmarshalCBOR")
 	got := map[int64]string{}
-	if fd != nil {
-		ast.Inspect(fd.Body, func(n ast.Node) bool {
-			sw, ok := n.(*ast.SwitchStmt)
-			if !ok {
-				return true
-			}
-			for _, cl := range sw.Body.List {
-				cc := cl.(*ast.CaseClause)
-				for _, e := range cc.List {
-					v, ok := constInt(p.TypesInfo, e)
-					if !ok {
-						continue
-					}
-					for _, st := range cc.Body {
-						as, ok := st.(*ast.AssignStmt)
-						if !ok || len(as.Rhs) != 1 {
-							continue
-						}
-						if ue, ok := as.Rhs[0].(*ast.UnaryExpr); ok {
-							if cl, ok := ue.X.(*ast.CompositeLit); ok {
-								got[v] = types.ExprString(cl.Type)
-							}
-						}
-					}
-				}
-			}
-			return true
-		})
+	for v, names := range variantAllocTable(c.SSAFunc(rel, "NativeScript.UnmarshalCBOR"), 5, func(t *types.Named) bool { return strings.HasPrefix(t.Obj().Name(), "NativeScript") }) {
+		sort.Strings(names)
+		got[v] = strings.Join(names, "+")
 	}
 	for id, name := range wantIDs {
 		c.Check(got[id] == name, "variant-table", fmt.Sprintf("%s.(*NativeScript).UnmarshalCBOR:%d", rel, id), fd.Pos(), fmt.Sprintf("id %d decodes as %s", id, name), fmt.Sprintf("id %d decodes as %q, the ledger defines it as %s", id, got[id], name))
